@@ -261,11 +261,16 @@ def run(ctx):
                 self_keys.add(ev[1])
                 if ev[1] in rb.nm.connected_peers:
                     res.violations.append({"kind": "a connection to the node itself was not dropped", "trace": trace[-6:]})
-            if ev[0] == "peers":
+            if ev[0] in ("peers", "hello", "incoming"):
+                # neither an announcement nor a greeting nor a new incoming connection may touch what is recorded about
+                # an address that is waiting for reconnection (its failure count and the time of its last attempt)
                 for k, v in before_entries.items():
                     p = rb.nm.disconnected_peers.get(k)
                     if p is not None and (p.ban_score, p.last_connection_attempt) != v:
-                        res.violations.append({"kind": "an announced peer overwrote a known one", "address": key_str(k)})
+                        res.violations.append({"kind": "a %s event overwrote what is recorded about a waiting address "
+                                                       "(failure count %d, last attempt %s -> %d, %s): its back-off is lost"
+                                                       % (ev[0], v[0], v[1], p.ban_score, p.last_connection_attempt),
+                                               "address": key_str(k), "trace": trace[-8:]})
             ops.append("book digest")
             impl.append(rb.digest())
             check_invariants(res, rb, trace, {})
